@@ -17,7 +17,7 @@ a second occurrence.  One table entry, stored on one line, used on another line 
 interaction.  Without the history (`position <R>` alone) both values are `cp -75`.
 
 * `ghiWitness` (`#guard`, the search runs on `Std.HashMap` and is evaluated by the compiler): the two values with the history
-  differ, the two values without it agree;
+  differ, the two values without it agree; `ghiWitnessKings`: the same mechanism with bare kings (`cp 10` against `cp 20`);
 * `root_recurs`, `not_rhashInj` (kernel): the hypothesis `RHashInj` of the conditional theorem fails on this game at depth 5 — a
   node at ply 4 has the hash (indeed the placement, side, rights and e.p. file) of the root, a node at which the search stores.
 -/
@@ -50,6 +50,25 @@ def ghiWitness : Bool :=
 #guard ghiWitness
 -- (model driver: `rep-search 8/8/2Q5/k2Kq3/6R1/8/8/8_w_-_-_0_31 5 d5c4 e5c3 c4d5` answers `cp0 cp-75`: the rule decides the value;
 --  `session pos 8/8/2Q5/k2Kq3/6R1/8/8/8_w_-_-_0_31 d5c4 e5c3 c4d5 ; go depth 5` ends with `D:5:cp-75`)
+
+/-! ## the same with bare kings (fast)
+
+`8/8/8/3K1k2/8/8/8/8 b - - 0 30`, then `Kf5-g4 Kd5-d4 Kg4-f5`; White to move at the root `R` (Kd4, kf5).  `A = R + Kd4-d5` is the FEN
+position (one occurrence in the game).  The line `Kd4-d5 Kf5-f4 Kd5-d4 Kf4-f5` reaches `R` at ply 4 (second occurrence); there
+`Kd4-d5` would complete the threefold of `A` (worth `+50` to the root side by the contempt convention), so Black must avoid
+`Kf4-f5` and the exact value is `cp 20`.  The search model answers the ply-4 node from the root entry of iteration 4 (value `cp 10`)
+and reports `cp 10`.  Without the history both say `cp 10`; at depth 4 both say `cp 10` with the history. -/
+
+def kings : Board := boardOf "8/8/8/3K1k2/8/8/8/8 b - - 0 30"
+def kingsHistory : List String := ["f5g4", "d5d4", "g4f5"]
+def kingsRoot : Board := lastBoard kings (tailOf kings kingsHistory)
+
+def ghiWitnessKings : Bool :=
+  engineScore 5 kings kingsHistory == some (5, .cp 10) && specScore 5 kings kingsHistory == some (5, .cp 20) &&
+  engineScore 5 kingsRoot [] == some (5, .cp 10) && specScore 5 kingsRoot [] == some (5, .cp 10) &&
+  engineScore 4 kings kingsHistory == some (4, .cp 10) && specScore 4 kings kingsHistory == some (4, .cp 10)
+
+#guard ghiWitnessKings
 
 /-! ## the hypothesis that fails -/
 
